@@ -484,6 +484,15 @@ Proof.
   rewrite run_S. cbn [step seq_run]. rewrite (H1 b (S f') i2 ltac:(lia) Hb HF).
   apply H2; [lia | rewrite app_length in Hb; lia].
 Qed.
+Lemma rejseq_after g gs d w1 v (F1 : list byte -> Prop) i2 :
+  Ok g d w1 v F1 -> F1 i2 -> (forall b f acc used, need rk (Seq gs) d <= N.of_nat f -> (length i2 < b)%nat ->
+                               seq_run (run natf env b f) gs d i2 acc used = RErr) ->
+  forall b f acc used, need rk (Seq (g :: gs)) d <= N.of_nat f -> (length (w1 ++ i2) < b)%nat ->
+    seq_run (run natf env b f) (g :: gs) d (w1 ++ i2) acc used = RErr.
+Proof.
+  intros H1 HF H2 b f acc used Hf Hb. rewrite need_seq_cons in Hf. cbn [seq_run].
+  rewrite (H1 b f i2 ltac:(lia) Hb HF). apply H2; [lia | rewrite app_length in Hb; lia].
+Qed.
 Lemma rejseq_head g gs d i : Rej g d i ->
   forall b f acc used, need rk (Seq (g :: gs)) d <= N.of_nat f -> (length i < b)%nat ->
     seq_run (run natf env b f) (g :: gs) d i acc used = RErr.
